@@ -7,7 +7,10 @@ import "context"
 // C18 — a successful run never yields the empty action, for any node kind.
 
 func c18Check(postAction, act Action, err error) {
-	vAssert(err == nil, "run-succeeds")
+	if err != nil {
+		return // only successful runs are this property's business
+	}
+	vCover("run-succeeded")
 	vAssert(act != "", "successful-run-never-yields-empty-action")
 	if postAction == "" {
 		vCover("post-empty")
@@ -124,7 +127,10 @@ func VH_C18_flowDefault() {
 	flow := NewFlow(n)
 	flow.Connect(n, DefaultAction, after)
 	err := flow.Run(vNewCtx(), NewSharedStore())
-	vAssert(err == nil, "run-succeeds")
+	if err != nil {
+		return
+	}
+	vCover("run-succeeded")
 	if act == "" || act == DefaultAction {
 		vCover("default-edge-followed")
 		vAssert(after.visits == 1, "default-connection-is-followed")
